@@ -648,4 +648,38 @@ def t_dict_store_coinciding_keys(a, b):
     return (list(d.items()), d.get(0, "none"), len(d))
 
 
+def t_grouping_by_symbolic_key(a, b, c):
+    import collections
+
+    groups = collections.defaultdict(list) if False else {}
+    for name, key in (("x", a), ("y", b), ("z", c)):
+        groups.setdefault(key, []).append(name)
+    counts = {k: len(v) for k, v in groups.items()}
+    return (list(groups.items()), counts.get(a), len(counts))
+
+
+def t_memo_keyed_too_coarsely(a, b):
+    memo = {}
+
+    def lineshape(edge, mass):
+        if edge not in memo:
+            memo[edge] = mass * 10
+        return memo[edge]
+
+    return (lineshape(a, 1), lineshape(b, 2), lineshape(a, 3), len(memo))
+
+
+def t_closure_counter_in_loop(a, b, c):
+    seen = []
+
+    def visit(v):
+        if v > 0 and v not in seen:
+            seen.append(v)
+            return True
+        return False
+
+    flags = [visit(v) for v in (a, b, c, a)]
+    return (flags, seen)
+
+
 CASES = [v for k, v in list(globals().items()) if k.startswith("t_") and callable(v)]
